@@ -1,14 +1,14 @@
 package props
 
 import (
-	"gbverif/cmpchain"
-	"os"
-	"strings"
-	"golang.org/x/tools/go/ssa"
 	"encoding/json"
 	"fmt"
+	"gbverif/cmpchain"
 	"go/types"
+	"golang.org/x/tools/go/ssa"
+	"os"
 	"sort"
+	"strings"
 
 	"gbverif/ir"
 	"gbverif/locks"
@@ -341,7 +341,6 @@ func init() {
 	}
 }
 
-
 func init() {
 	// narrow: arithmetic in uint8/uint16 whose result is compared (possible wrap-around in a guard)
 	debugHooks["narrow"] = func(p *ir.Program) {
@@ -387,6 +386,15 @@ func init() {
 		c := &Ctx{P: p, R: report.New("DBG", "quick")}
 		st := c.boundsStats(boundsPkgs)
 		b, _ := json.MarshalIndent(st, "", " ")
+		fmt.Println("BASELINE-BEGIN")
+		fmt.Println(string(b))
+	}
+}
+
+func init() {
+	debugHooks["switch-baseline"] = func(p *ir.Program) {
+		c := &Ctx{P: p, R: report.New("DBG", "quick")}
+		b, _ := json.MarshalIndent(c.switchSigs(switchPkgs), "", " ")
 		fmt.Println("BASELINE-BEGIN")
 		fmt.Println(string(b))
 	}
